@@ -374,9 +374,20 @@ impl Indexable for ast::BangOperator {
                     return Some(Type::Unknown);
                 };
 
-                if then_typ.can_be_casted_to(&ctx.symbol_map, &else_typ) {
-                    Some(then_typ)
-                } else if else_typ.can_be_casted_to(&ctx.symbol_map, &then_typ) {
+                let then_fits = then_typ.can_be_casted_to(&ctx.symbol_map, &else_typ);
+                let else_fits = else_typ.can_be_casted_to(&ctx.symbol_map, &then_typ);
+                if then_fits && else_fits {
+                    // interchangeable (`int` and `bit`), or one branch says less than the other
+                    // (`?`, `[]`): the result is the one that says more
+                    if else_typ.specificity() > then_typ.specificity() {
+                        Some(else_typ)
+                    } else {
+                        Some(then_typ)
+                    }
+                } else if then_fits {
+                    // the `else` branch is the wider one (a base class of the `then` branch)
+                    Some(else_typ)
+                } else if else_fits {
                     Some(then_typ)
                 } else if let Some(common_typ) = then_typ.common_typ(&ctx.symbol_map, &else_typ) {
                     Some(common_typ)
